@@ -60,6 +60,48 @@ def make_ds(ctx, rng, d):
     return path, df, layout, with_index, kinds
 
 
+def directed_nometa(ctx, report):
+    """A file without pandas metadata whose optional integer / boolean columns have nulls in only some row groups: the
+    column type is then decided from all row groups together, and every partial read must come back as the matching
+    part of the full read - same values (integers above 2**53 change when they pass through float64) and same dtype."""
+    import fastparquet
+    from fastparquet.writer import update_file_custom_metadata
+    n = 12
+    big = pd.array([2 ** 53 + 1 + i for i in range(n)], dtype="Int64")
+    big[5] = pd.NA
+    b = pd.array([True, False] * 6, dtype="boolean")
+    b[6] = pd.NA
+    df = pd.DataFrame({"rid": np.arange(n, dtype="int64"), "big": big, "b": b})
+    path = os.path.join(ctx.workdir("c06"), "nometa.parq")
+    fastparquet.write(path, df, row_group_offsets=[0, 4, 8])
+    update_file_custom_metadata(path, {"pandas": None})
+    for pn in (True, False):
+        pf = fastparquet.ParquetFile(path, pandas_nulls=pn)
+        full = pf.to_pandas()
+        progs = [("pick0", lambda h: h[0].to_pandas(), [0, 1, 2, 3]), ("pick-1", lambda h: h[-1].to_pandas(), [8, 9, 10, 11]),
+                 ("slice2:", lambda h: h[2:].to_pandas(), [8, 9, 10, 11]), ("slice::2", lambda h: h[::2].to_pandas(), [0, 1, 2, 3, 8, 9, 10, 11]),
+                 ("head3", lambda h: h.head(3), [0, 1, 2]), ("iter0", lambda h: next(iter(h.iter_row_groups())), [0, 1, 2, 3]),
+                 ("pickle-pick2", lambda h: pickle.loads(pickle.dumps(h[2])).to_pandas(), [8, 9, 10, 11]),
+                 ("copy-pick0", lambda h: copy.copy(h[0]).to_pandas(), [0, 1, 2, 3])]
+        for name, fn, rows in progs:
+            rec = {"check": "nometa", "pandas_nulls": pn, "program": name, "dataset": "no pandas metadata; nulls only in row group 1"}
+            ctx.crumb(rec)
+            try:
+                got = fn(pf)
+                exp = full.iloc[rows]
+                probs = diff_frames(exp.reset_index(drop=True), got.reset_index(drop=True))
+                for c in exp.columns:
+                    if c in got.columns and str(got[c].dtype) != str(exp[c].dtype):
+                        probs.append(f"column {c!r} comes back as {got[c].dtype} where the full read has {exp[c].dtype}")
+                if probs:
+                    report.violation({**rec, "what": "; ".join(probs)[:400], "sig": f"nometa:{name}:{probs[0][:24]}"})
+            except Exception as e:  # noqa
+                report.violation({**rec, "what": "partial read raised: " + canon_err(e) + " " + str(e)[:150], "sig": f"nometa-raised:{name}:{canon_err(e)}"})
+            report.case(("nometa", pn, name), True)
+            report.count("directed:nometa")
+    os.remove(path)
+
+
 def rg_sizes(pf):
     return [rg.num_rows for rg in pf.row_groups]
 
@@ -86,6 +128,7 @@ def run(ctx, report):
     nds = 6 if ctx.quick else 40
     nprog = 30 if ctx.quick else 80
     reqs = []
+    directed_nometa(ctx, report)
     for d in range(nds):
         try:
             path, df, layout, with_index, kinds = make_ds(ctx, rng, d)
